@@ -68,9 +68,9 @@ func Run(src string, o Opts) (res Result) {
 	file := o.File
 	if file == "" {
 		if o.Template {
-			file = "/verif-virtual/t.php"
+			file = os.TempDir() + "/verif-virtual-t.php"
 		} else {
-			file = "/verif-virtual/t.zy"
+			file = os.TempDir() + "/verif-virtual-t.zy"
 		}
 	}
 	res.Phase = "init"
